@@ -27,7 +27,8 @@ CHECKS = {
                 text="For the three network families and every n in 0..16: all 2^n zero-one inputs through the size-specific sortN and the dispatching sort(), "
                      "sorted output required; the recorded (index,index) compare-exchange sequence must be identical for all inputs and inside [0,n) "
                      "(hypothesis of the zero-one principle, which extends the result to every input and strict weak order); additionally all n! permutations "
-                     "(n<=9 quick / 11 thorough) and all 3-key inputs with tags under less and greater. Exhaustive, ASan on.",
+                     "(n<=9 quick / 11 thorough) and all 3-key inputs with tags under less and greater, the latter also with records that carry a std::string payload "
+                     "(move assignment not self-safe, moved-from payload empty: n<=8). Exhaustive, ASan on.",
                 note="zero-one principle (Knuth 5.3.4 Thm Z); obliviousness checked for the int instantiation of the template"),
     "C19": dict(engine="venum", technique=E3, design="4/C19",
                 text="All byte strings / string vectors up to a length bound over alphabets containing separators, quotes, escapes, whitespace, NUL and 0xFF: "
@@ -50,14 +51,16 @@ CHECKS = {
                 note="comparators less and greater on a (key,tag) struct; key alphabet of 3; k <= 9"),
     "C12": dict(engine="vhist+vsched", technique=E2 + " for the sequential histories; " + E1 + " for the concurrent part", design="4/C12",
                 text="Sequential: BFS closure (frontier empty) over every history of construct/copy/move/assign (all ordered pairs incl. self and aliases)/"
-                     "converting/reset/swap/unify/destroy on 4 handle variables; in every state use_count == number of handles, destructor log exact, ASan. "
-                     "Concurrent: every multiset of 2-3 thread scripts copying/moving/dropping private handles to one shared object, every interleaving "
+                     "converting/reset/swap/unify/destroy on 4 handle variables; in every state use_count == number of handles, destructor log exact, ASan; plus linked lists "
+                     "(handles stored inside managed objects) walked with same-type, const-converting and base-converting cursors by copy, move and temporary assignment. "
+                     "Concurrent: every multiset of 2-3 thread scripts copying/moving/assigning/resetting/unify()ing private handles to one shared object, every interleaving "
                      "within the preemption bound, ASan build (use-after-free, assert in ~ReferenceCounter, destroyed exactly once) and TSan build (payload races); "
                      "the same scenarios are also explored without a bound in explicit-state mode (abstract state = scheduler state + call-site chains + reference count + destructor count).",
                 note="SC interleavings; preemption bound 2-3 (2 threads) / 1-2 (3 threads); handle variables themselves are thread-private as documented"),
     "C10": dict(engine="vsched", technique=E1, design="4/C10",
                 text="Job-graph scenarios (independent jobs, job->child->grandchild, second enqueuing thread, job calling terminate(), terminate()/destruction "
-                     "with queued jobs, two external waiters, pool reuse) for pool sizes 1..3: every interleaving of workers, enqueuers and waiters within the "
+                     "with queued jobs, two external waiters, an external terminating thread, pool reuse, jobs whose closures own a shared token "
+                     "whose destructor enqueues a continuation) for pool sizes 1..3: every interleaving of workers, enqueuers and waiters within the "
                      "bound (preemption bound 1-3 quick / 2-4 thorough for 1-2 workers; delay bound 2 / 3 where 3 workers or 4+ threads make free switches explode) "
                      "and every notify_one target, on the real ThreadPool: per-job counters (exactly once), queue empty and busy==0 at the instant "
                      "loop_until_empty returns, done() count, no deadlock / lost wake-up (no runnable thread = deadlock), ASan build + TSan build (visibility of "
@@ -78,29 +81,30 @@ CHECKS = {
     "C05": dict(engine="venum", technique=E3, design="4/C05",
                 text="Every tuple of sorted sequences over 3 keys (k = 0..6 quick / 0..9 thorough, lengths 0..4/5 within total caps, plus dense and dominant-sequence "
                      "families), every length 0..total, every entry point {multiway_merge, stable_, _sentinels, stable_.._sentinels, multiway_merge_base} x "
-                     "{LOSER_TREE, COMBINED, SENTINEL, BUBBLE} x {8-byte element (copy tree), 40-byte element (pointer tree)}: output equals the first `length` of the "
+                     "{LOSER_TREE, COMBINED, SENTINEL, BUBBLE} x {12-byte element (copy tree), 40-byte element (pointer tree), 16-byte heap-owning lifetime-tracked element}: output equals the first `length` of the "
                      "reference (stable) merge, return value, inputs advanced by exactly the contributed counts (tags), nothing written beyond target+length "
-                     "(exact-size heap blocks under ASan, canaries), inputs unmodified. 1.9e8 merges quick / 3.8e9 thorough.",
+                     "(exact-size heap blocks under ASan, canaries), inputs unmodified, the comparator is only ever called with input elements or sentinels (never with the "
+                     "value-initialised key of an exhausted player), no element used while not alive, no element copy leaked. 2.8e8 merges quick.",
                 note="key alphabet of 3, stated k / length caps; comparator looks at the key only, tags make stability observable"),
     "C06": dict(engine="vsched+venum", technique=E3 + " with every input executed on the scheduler's deterministic default schedule; " + E1 + " for the schedule dimension", design="4/C06",
-                text="Inputs: every key sequence over 3 keys up to length 5/6 plus sorted/reversed/all-equal/organ-pipe/cyclic patterns up to n=14/24 x threads "
-                     "{1..8,16,33} (incl. more threads than elements) x {exact, sampling} x oversampling x stable/unstable x {POD, heap-owning lifetime-tracked element}: "
+                text="Inputs: every key sequence over 3 keys up to length 5/6 plus sorted/reversed/all-equal/organ-pipe/cyclic patterns up to n=24/40 (beyond the 16 elements up to which std::sort is an insertion sort) x threads "
+                     "{1,2,3,5,8,16,17}/{1..8,16,17,33} (incl. more threads than elements and more than 16 sequences for the exact splitter) x {exact, sampling} x oversampling x stable/unstable x {POD, heap-owning lifetime-tracked element}: "
                      "sorted permutation, equals std::stable_sort for the stable variant, live-instance count unchanged (temporaries destroyed), input in an exact-size "
                      "heap block under ASan. Schedules: 7 small inputs x both splittings x both element types under every interleaving within the bound, ASan + TSan "
                      "(termination, no race).",
-                note="SC interleavings; preemption bound (2 threads) / delay bound (3-4 threads) 1-2 quick, 2-3 thorough; <= 4 distinct keys; n <= 24"),
+                note="SC interleavings; preemption bound (2 threads) / delay bound (3-4 threads) 1-2 quick, 2-3 thorough; <= 4 distinct keys; n <= 24 quick / 40 thorough"),
     "C17": dict(engine="vhist", technique=E2, design="4/C17",
-                text="BFS closure over every history of put/touch/touch_if_exists/erase/erase_if_exists/get_touch/pop/clear on LruCacheSet/LruCacheMap (4-6 keys) vs a "
+                text="BFS closure over every history of put/touch/touch_if_exists/erase/erase_if_exists/get_touch/pop/clear on LruCacheSet/LruCacheMap (4-6 int keys, 3-5 heap-owning std::string keys) vs a "
                      "reference recency list incl. exact exception behaviour, and of insert/erase(key)/erase(node)/exists/find/clear on SplayTree set (6-9 keys) and "
-                     "multiset (3 keys, multiplicity 3-5), comparators less/greater, int and heap-owning tracked keys, counting allocator: membership, size, in-order "
+                     "multiset (2-3 keys, multiplicity 3-6), comparators less/greater, int and heap-owning tracked keys, counting allocator: membership, size, in-order "
                      "sequence vs std::set/multiset, own BST validity walk over the raw nodes, every node freed exactly once, operations on the empty tree and after clear(), "
-                     "destruction of every reached state; states de-duplicated on the tree shape / recency list.",
+                     "destruction of every reached state; states de-duplicated on the tree shape / recency list, with the reference model's digest kept per state (a revisit with a different reference state is a divergence).",
                 note="finite key universes as stated; find() compared for membership only (as the property says)"),
     "C07": dict(engine="vsched+venum", technique=E3 + " with every case executed on the scheduler's deterministic default schedule (ASan and TSan builds); " + E1 + " for schedule independence", design="4/C07",
                 text="Every tuple of <=3 sorted sequences over 3 keys (lengths 0..2 quick / 0..3 thorough), 4-tuples over 2 keys, dominant-sequence tuples, x every length "
                      "0..total x threads {1,2,3,5}/{1,2,3,5,32} x exact/sampling(oversampling 1,2,10) x stable/unstable x entry points (front end with force_parallel, "
-                     "with minimal_n/k=0, _sentinels, _base) x merge algorithms: output equals the sequential (stable) merge, return value, inputs advanced by exactly "
-                     "the contributed counts, every output slot written exactly once (write-counting target iterator), ASan. The workers do not synchronise between fork "
+                     "with minimal_n/k=0, _sentinels, _base) x merge algorithms x element type {plain struct, heap-owning lifetime-tracked}, plus tuples of 17-24 sequences: output equals the sequential (stable) merge, return value, inputs advanced by exactly "
+                     "the contributed counts, every output slot written exactly once (write-counting target iterator), no element used while not alive (assignment onto raw storage), no copy leaked, ASan. The workers do not synchronise between fork "
                      "and join, so the single TSan execution per input decides race freedom for all schedules; 20 scenarios are additionally explored over all interleavings.",
                 note="SC interleavings; key alphabet 3; stated tuple bounds; parallel path forced through the documented global switches"),
     "C04": dict(engine="vsched+venum", technique=E3 + " with every case executed on the scheduler's deterministic default schedule (ASan; TSan on a reduced product); " + E1 + " (delay-bounded) for the schedule dimension", design="4/C04",
@@ -130,12 +134,13 @@ CHECKS = {
                      "pairs/triples such as (1,17),(16,3),(1,1,17),(1,33)), every rank 0..N for multisequence_partition and 0..N-1 for multisequence_selection, comparators "
                      "less (ascending inputs) and greater (descending): offsets sum to rank, max(left) <= min(right), the split is exactly the one induced by the "
                      "(value, sequence index) order (tie-break), selected value and offset among equivalents; elements are (key,tag) so equivalence is not identity; "
-                     "exact-size heap blocks under ASan. 3.4e7 cases quick / 5.6e8 thorough.",
+                     "families with 17-26 sequences (beyond std::sort's insertion-sort threshold); every case with more than 16 sequences and every 29th other case also with a "
+                     "heap-owning lifetime-tracked element (copies made by the splitter constructed, alive and destroyed); exact-size heap blocks under ASan. 5.9e7 cases quick.",
                 note="key alphabet of 3; stated m / length caps; selection only for rank < N (documented contract)"),
     "C13": dict(engine="vhist", technique=E2, design="4/C13",
                 text="DAryHeap (arity 1..4 quick / 1..8 thorough, less/greater/external priority table): BFS closure over push/pop/extract_top/clear/update_all/build_heap "
                      "(3 overloads, on empty and non-empty heaps) with keys 0..4 twice each; DAryAddressableIntHeap: closure over push/pop/extract_top/remove(k)/update(k) after "
-                     "raising or lowering priorities/update_all/build_heap/clear on unique keys with priorities {0,1,2}, contains(k) for all k after every op, plus a seeded family "
+                     "raising or lowering priorities/update_all/build_heap/clear/reserve(n) on unique keys with priorities {0,1,2}, contains(k) for all k after every op, plus a seeded family "
                      "reaching remove()'s sift-up; RadixHeap: 8 key types x radix {2,4,8,16,64}, 11-key alphabet incl. extremes, BFS depth 5/6 with canonical-state de-duplication, "
                      "every new state drained twice (top/pop and swap_top_bucket) against the sorted model, in an asserts-on and an NDEBUG build. Size, top, sanity_check, drain order.",
                 note="RadixHeap histories are depth-bounded; keys below the key last returned by top() are only driven in the separate known-finding run (tlx documents top() as raising the insertion limit)"),
